@@ -106,20 +106,8 @@ def sim_unicode(ctx, pexpect, n):
         which = rng.choice([0, 1, 2])
         buf0 = b''.join(rng.choice(chars) for _ in range(rng.choice([0, 1, 2])))
         calls = [(rng.choice([1, 2, 3, 5, 50]), rng.random() < 0.25) for _ in range(rng.randint(1, 6))]
-        sched = []
-        for _ in range(rng.randint(0, 6 * len(calls))):
-            acts = []
-            if rng.random() < 0.45:
-                # the peer writes whole characters or PIECES of one (a character split over two writes)
-                ch = rng.choice(chars)
-                k = rng.randint(1, len(ch))
-                acts.append(('w', ch[:k]))
-                if k < len(ch):
-                    sched.append((acts, rng.choice([0, 1, 5])))
-                    acts = [('w', ch[k:])]
-            if rng.random() < 0.08:
-                acts.append(('exit',))
-            sched.append((acts, rng.choice([0, 0, 1, 2, 5, 100])))
+        # the peer writes whole characters or PIECES of one, the rest coming a moment later - possibly only after a read has timed out
+        sched = T.gen_sched_unicode(rng, rng.randint(0, 6 * len(calls)))
         sim = T.Sim(buf0, True, True, sched)
         try:
             obs, c = T.run_calls(pexpect, which, sim, calls, rng.random() < 0.4, encoding='utf-8')
